@@ -157,17 +157,19 @@ def r3_session_id(chk, fx):
                          key="C12/R3 SessionId built-in %s" % T.strip_generics(name))
     # SessionId::new / from_str by abstract interpretation
     nw = "netconf::session::SessionId::new"
-    paths = A.Interp(fx, crates=("netconf",)).explore(nw)
-    ok = len(paths) == 2
-    for p in paths:
-        z = [k for k, v in p.assume.items() if k.startswith("variant:NonZero::new(") and "param:n" in k]
-        if len(z) != 1:
-            ok = False
-            continue
-        if p.assume[z[0]] == "Some":
-            ok = ok and A.vstr(p.ret).startswith("Ok(SessionId(NonZero::new(«param:n»)→Some.0")
-        else:
-            ok = ok and A.is_res(p.ret) and p.ret[2] == "Err" and "InvalidSessionId" in A.vstr(p.ret)
+    paths = [p for p in A.Interp(fx, crates=("netconf",)).explore(nw) if p.end != "abort"]
+    # whatever the parameter is called and however the conversion is spelled (NonZeroU32::new(n).ok_or(..), NonZeroU32::try_from(n),
+    # a match): Ok carries the payload of a successful NonZero conversion of the parameter, everything else is Err(InvalidSessionId)
+    oks = [p for p in paths if A.is_res(p.ret) and p.ret[2] == "Ok"]
+    errs = [p for p in paths if A.is_res(p.ret) and p.ret[2] == "Err"]
+    ok = bool(oks) and bool(errs) and len(oks) + len(errs) == len(paths)
+    for p in oks:
+        v = A.vstr(p.ret)
+        conv = [k for k, w in p.assume.items() if k.startswith(("variant:NonZero::new(«param:", "variant:TryFrom::try_from(«param:", "variant:TryInto::try_into(«param:"))
+                and w in ("Some", "Ok")]
+        ok = ok and v.startswith("Ok(SessionId(") and len(conv) == 1 and (conv[0][8:] + "→" + p.assume[conv[0]] + ".0") in v
+    for p in errs:
+        ok = ok and "InvalidSessionId" in A.vstr(p.ret)
     chk.instance("C12/R3", "SessionId::new(n): NonZeroU32::new(n) = Some(x) => Ok(SessionId(x)); None (n = 0) => Err(InvalidSessionId)", nw, None, holds=ok,
                  key="C12/R3 SessionId::new form", detail="; ".join(A.vstr(p.ret)[:80] for p in paths))
     fs = "<netconf::session::SessionId as std::str::FromStr>::from_str"
